@@ -1771,7 +1771,44 @@ def rule_va_record(cx, rep, port='py'):
     c = p.cls('rbql_engine', 'RBQLRecord')
     t = node_text(c, 2000).replace(' ', '')
     ok = 'self.storage=dict()' in t and 'try:returnself.storage[key]exceptKeyError:raiseInternalBadKeyError(key)' in t and 'self.storage[key]=value' in t
-    rep.decide(ok, 'RBQLRecord', c, 'per-instance storage; missing key -> InternalBadKeyError(key)', 'RBQLRecord no longer keeps per-instance storage / maps a missing key to InternalBadKeyError')
+    # two instances evaluated: what one stores the other does not see; a stored key reads back; a missing key is InternalBadKeyError(key)
+    from .. import absexec as AX
+    ms_ = {m.name: m for m in c.body if isinstance(m, ast.FunctionDef)}
+    verdict = None
+    try:
+        def on_call(ex, node, fname, recv, args):
+            if isinstance(node.func, ast.Name) and node.func.id.endswith('Error'):
+                return AX.Abs('Exc', cls=node.func.id, args=tuple(args))
+            return AX.NOT_HANDLED
+        ex = AX.Explorer(p, 'rbql_engine', on_call=on_call, max_choices=1)
+        ex.cls = 'RBQLRecord'
+        ex._script, ex._pos, ex.steps, ex.depth = [], 0, 0, 0
+        ex.run = AX.Run()
+        r1, r2 = AX.Abs('Self'), AX.Abs('Self')
+        for r_ in (r1, r2):
+            if '__init__' in ms_:
+                ex.call_fd(ms_['__init__'], [r_])
+        ex.call_fd(ms_['__setitem__'], [r1, 'name', 'v1'])
+        ex.call_fd(ms_['__setitem__'], [r2, 'other', 'v2'])
+        problems = []
+        if ex.call_fd(ms_['__getitem__'], [r1, 'name']) != 'v1':
+            problems.append('a stored key does not read back')
+        for r_, k_ in ((r1, 'other'), (r2, 'name'), (r1, 'missing')):
+            try:
+                v_ = ex.call_fd(ms_['__getitem__'], [r_, k_])
+                problems.append('the key {!r} set on another record (or never) reads as {!r} instead of raising InternalBadKeyError'.format(k_, v_))
+            except AX.Raised as ra_:
+                if not (isinstance(ra_.value, AX.Abs) and ra_.value.props.get('cls') == 'InternalBadKeyError' and ra_.value.props.get('args') == (k_,)):
+                    problems.append('a missing key raises {!r} instead of InternalBadKeyError(key)'.format(ra_.value))
+        verdict = '; '.join(problems)
+    except (Undecided, AX.Cut, AX._NeedChoice, KeyError, IndexError, TypeError, AttributeError, ValueError):
+        verdict = None
+    if verdict is not None:
+        rep.decide(verdict == '', 'RBQLRecord', c, 'per-instance storage; missing key -> InternalBadKeyError(key) (two instances evaluated)', 'RBQLRecord: ' + verdict)
+    elif not ok:
+        rep.undecided('RBQLRecord', c, 'RBQLRecord is outside the abstract interpreter and its text is not the known one')
+    else:
+        rep.decide(ok, 'RBQLRecord', c, 'per-instance storage; missing key -> InternalBadKeyError(key)', 'RBQLRecord no longer keeps per-instance storage / maps a missing key to InternalBadKeyError')
     gc = p.func('rbql_engine', 'generate_common_init_code')
     rep.decide("'{} = RBQLRecord()'.format(variable_prefix)" in node_text(gc, 2000), 'record objects', gc, 'a fresh RBQLRecord per input record', 'a/b are not re-created per record')
 
